@@ -23,6 +23,7 @@ verus! {
 //@ end
 
 //@ include units/inc/int_from_bytes.rs
+broadcast use {num_bigint::of_int_bi, num_bigint::bi_of_int};
 
 //@ extract fn bigint_from_bytes from src/classic/clvm/casts.rs
 //@ canary drop_remain_offset @<i * 4 + bytes4_remain>@ => @<i * 4>@
